@@ -159,7 +159,31 @@ class W(Generic[T]):
 @dataclass
 class WJ(W[Jet]):
     extra: float
+# classes whose bases are all written as plain names (python hands them the first base's __orig_bases__)
+class JetBox(Box[Jet]):
+    pass
+class TrkHolder(Other[Trk]):
+    pass
+class Both(JetBox, TrkHolder):
+    pass
+class TrkIter2(MyIter[Trk]):
+    pass
+class BoxAndIter(JetBox, TrkIter2):
+    pass
+# a generic collection named without its argument
+class SubBare(MyIter):
+    def sb(self) -> int: ...
+# a dataclass that is a sequence as well
+@dataclass
+class JetGroup(Iterable[Jet]):
+    gname: str
+    radius: float
 class Event(Base):
+    def both(self) -> Both: ...
+    def boxiter(self) -> BoxAndIter: ...
+    def bare(self) -> MyIter: ...
+    def subbare(self) -> SubBare: ...
+    def jgroup(self) -> JetGroup: ...
     def jag(self) -> Jagged[Trk]: ...
     def haslead(self) -> HasLead[Jet]: ...
     def jets_abc(self) -> AbcColl[Jet]: ...
@@ -245,7 +269,9 @@ def bases_of(t):
         return []
     params = _params(origin)
     mapping = dict(zip(params, typing.get_args(t)))
-    raw = [b for b in getattr(origin, "__orig_bases__", origin.__bases__) if typing.get_origin(b) not in (typing.Generic, typing.Protocol) and b not in (typing.Generic, typing.Protocol)]
+    # (the class's OWN statement of its bases: `__orig_bases__` is inherited like any attribute, a class written with plain base
+    # names only would show the first base's)
+    raw = [b for b in vars(origin).get("__orig_bases__", origin.__bases__) if typing.get_origin(b) not in (typing.Generic, typing.Protocol) and b not in (typing.Generic, typing.Protocol)]
     return [_subst(b, mapping) for b in raw]
 
 
@@ -265,7 +291,8 @@ def elem_of(t):
             continue
         e = elem_of(b)
         if e is not None:
-            return e
+            # (a generic collection named without its argument: its items can be anything)
+            return Any if _has_typevar(e) else e
     return None
 
 
